@@ -298,7 +298,7 @@ def inline_new_helpers(tree, module_name, functions_of_class):
             return st.iter
         return None
 
-    def rewrite_block(block, cls_name, depth=0):
+    def rewrite_block(block, cls_name, depth=0, used=frozenset()):
         nonlocal count
         i = 0
         while i < len(block):
@@ -310,6 +310,8 @@ def inline_new_helpers(tree, module_name, functions_of_class):
                 call, tgt = st.value, st.targets[0]
             elif isinstance(st, ast.Return) and isinstance(st.value, ast.Call):
                 call, tgt = st.value, "return"
+            elif isinstance(st, ast.Expr) and isinstance(st.value, ast.Yield) and isinstance(st.value.value, ast.Call):
+                call, tgt = st.value.value, "yield"
             elif forwarding(st) is not None:
                 call, tgt = forwarding(st), "forward"
             done = False
@@ -341,7 +343,7 @@ def inline_new_helpers(tree, module_name, functions_of_class):
                         # `a, b = self.h(..)` with `return x, y` at the end: the helper's x, y ARE a, b
                         keepname = {}
                         rets_ = [n for s in body for n in ast.walk(s) if isinstance(n, ast.Return)]
-                        if tgt not in (None, "return", "forward") and len(rets_) == 1 and rets_[0].value is not None:
+                        if tgt not in (None, "return", "forward", "yield") and len(rets_) == 1 and rets_[0].value is not None:
                             tv, rv = (tgt.elts if isinstance(tgt, ast.Tuple) else [tgt]), \
                                 (rets_[0].value.elts if isinstance(rets_[0].value, ast.Tuple) else [rets_[0].value])
                             if len(tv) == len(rv) and all(isinstance(x, ast.Name) for x in list(tv) + list(rv)) \
@@ -363,14 +365,16 @@ def inline_new_helpers(tree, module_name, functions_of_class):
                                     return copy.deepcopy(mapping[node.id])
                                 if node.id in keepname:
                                     node.id = keepname[node.id]
-                                elif node.id in loc:
-                                    node.id = pre + node.id
+                                elif node.id in loc and node.id in used:
+                                    node.id = pre + node.id     # only names the caller already uses are renamed
                                 return node
                         body = [R().visit(s) for s in body]
 
                         def emit(value):
                             if tgt == "return":
                                 return [ast.Return(value=value)]
+                            if tgt == "yield":
+                                return [ast.Expr(value=ast.Yield(value=value))]
                             if tgt == "forward" or tgt is None:
                                 return [ast.Expr(value=value)] if value is not None and not isinstance(value, ast.Constant) else []
                             if isinstance(tgt, ast.Tuple) and isinstance(value, ast.Tuple) \
@@ -389,7 +393,7 @@ def inline_new_helpers(tree, module_name, functions_of_class):
                             return [ast.Assign(targets=[copy.deepcopy(tgt)],
                                                value=value if value is not None else ast.Constant(value=None))]
                         new = _thread_returns(body, emit)
-                        if tgt not in (None, "return", "forward") and not _always_leaves(body):
+                        if tgt not in (None, "return", "forward", "yield") and not _always_leaves(body):
                             # falling off the end returns None
                             if not any(isinstance(s, ast.Return) for s in body):
                                 new.append(ast.Assign(targets=[copy.deepcopy(tgt)], value=ast.Constant(value=None)))
@@ -405,20 +409,22 @@ def inline_new_helpers(tree, module_name, functions_of_class):
                         count += 1
                         inlined.add((owner, d.name))
                         done = True
-                        rewrite_block(new, cls_name, depth + 1)
+                        rewrite_block(new, cls_name, depth + 1, used | loc)
                         i += len(new)
             if not done:
                 if isinstance(st, ast.ClassDef):
                     rewrite_block(st.body, st.name, depth)
                 elif isinstance(st, (ast.FunctionDef, ast.AsyncFunctionDef)):
-                    rewrite_block(st.body, cls_name, depth)
+                    names_ = frozenset(n.id for n in ast.walk(st) if isinstance(n, ast.Name)) | \
+                        frozenset(a.arg for a in st.args.args)
+                    rewrite_block(st.body, cls_name, depth, names_)
                 else:
                     for field in ("body", "orelse", "finalbody"):
                         b = getattr(st, field, None)
                         if isinstance(b, list) and b and isinstance(b[0], ast.stmt):
-                            rewrite_block(b, cls_name, depth)
+                            rewrite_block(b, cls_name, depth, used)
                     for h in getattr(st, "handlers", []) or []:
-                        rewrite_block(h.body, cls_name, depth)
+                        rewrite_block(h.body, cls_name, depth, used)
                 i += 1
     rewrite_block(tree.body, None)
     # a helper every use of which was folded back no longer exists as far as the rules are concerned
